@@ -125,6 +125,43 @@ def run(chk):
         except Exception as ex: return (f'total#never fails:{type(ex).__name__}', f'{name}: raised {ex!r}', {})
     chk.bounded('documented algebraic rewrites', LAWS, check_law, classify=lambda c: c[2], bound=f'{len(LAWS)} law instances')
 
+    # ---- spellings of object paths: quoted and unquoted steps, quoted steps whose text looks like path syntax ('c[1]', 'c.d', 'k[x]'), index steps after quoted names.
+    # Two comparisons that differ only in the path are equivalent exactly when the paths are the same sequence of (name, index) steps -- by a reader of its own.
+    def read_path(t):
+        steps = []; i = 0
+        while i < len(t):
+            if t[i] == '.': i += 1; continue
+            if t[i] == "'":
+                j = t.index("'", i + 1); steps.append(['name', t[i + 1:j]]); i = j + 1
+            elif t[i] == '[':
+                j = t.index(']', i); steps.append(['index', t[i + 1:j]]); i = j + 1
+            else:
+                j = i
+                while j < len(t) and t[j] not in ".['": j += 1
+                steps.append(['name', t[i:j]]); i = j
+        return tuple(tuple(x) for x in steps)
+    PATHS = ["b.c", "b.'c'", "'b'.c", "b.c[1]", "b.'c'[1]", "b.'c[1]'", "b.c[*]", "b.'c[*]'", "b.'c'[*]", "b.'k[x]'", "b.'c.d'", "b.c.d", "b.'c-d'", "b.c[1].d", "b.'c[1]'.d", "b.'c[1].d'", "b.c[-1]", "b.'c[-1]'", "'b.c'", "b.c_ref.d"]
+
+    def path_cases():
+        for p1 in PATHS:
+            for p2 in PATHS:
+                for tmpl in ('[a:{} = 1]', '[a:{} = 1 OR a:z = 2]', '[a:{} = 1] FOLLOWEDBY [a:z = 2]'): yield (p1, p2, tmpl)
+
+    def path_check(case):
+        p1, p2, tmpl = case
+        a, b = tmpl.format(p1), tmpl.format(p2)
+        try: e = equivalent_patterns(a, b)
+        except Exception as ex: return (f'total#never fails:{type(ex).__name__}', f'equivalent_patterns({a!r}, {b!r}) raised {type(ex).__name__}: {str(ex)[:100]}', {})
+        want = read_path(p1) == read_path(p2)
+        # soundness only: the test need not recognise every respelling (quoting the first step is kept apart by the library), but what it reports equivalent must be the same path
+        if e and not want: return ('sound#object paths', f'{a} and {b} are reported equivalent, the paths are different sequences of steps', {})
+        if p1 == p2 and not e: return ('relation#reflexive', f'{a} is not equivalent to itself', {})
+        if tmpl == '[a:{} = 1]' and p2 == PATHS[0]:
+            coll = [tmpl.format(p) for p in PATHS]
+            found = list(find_equivalent_patterns(a, coll)); pairwise = [c for c in coll if equivalent_patterns(a, c)]
+            if found != pairwise: return ('find#exactly the pairwise equivalent members', f'find_equivalent_patterns({a}) = {found}, pairwise {pairwise}', {})
+    chk.bounded('object path spellings: all pairs', list(path_cases()), path_check, classify=lambda c: c, bound=f'{len(PATHS)} spellings of paths (quoted / unquoted steps, quoted text that looks like path syntax, index steps) x all ordered pairs x 3 contexts')
+
     # ---- single-leaf substitutions in every rewrite context: two patterns that differ in one leaf and are reported equivalent must have the same meaning
     pool = PG.leaf_pool()
     def kin(l1, l2): return l1[1] == l2[1] or l1[2:] == l2[2:]            # same path, other test -- or same test, other path
